@@ -18,6 +18,7 @@ import (
 	"bytes"
 	"compress/gzip"
 	"io"
+	"math"
 	"sync"
 
 	"connectrpc.com/connect"
@@ -86,6 +87,12 @@ func (p *compressionPool) compress(dst, src *bytes.Buffer) error {
 }
 
 func (p *compressionPool) decompress(dst, src *bytes.Buffer) error {
+	return p.decompressLimit(dst, src, math.MaxInt64-1)
+}
+
+// decompressLimit is like decompress but fails with a buffer limit error, without
+// reading the rest, if the decompressed data is larger than limit bytes.
+func (p *compressionPool) decompressLimit(dst, src *bytes.Buffer, limit int64) error {
 	if p == nil {
 		_, err := io.Copy(dst, src)
 		return err
@@ -96,8 +103,13 @@ func (p *compressionPool) decompress(dst, src *bytes.Buffer) error {
 	if err := decomp.Reset(src); err != nil {
 		return err
 	}
-	if _, err := dst.ReadFrom(decomp); err != nil {
+	// Read at most one byte more than the limit, so a message that decompresses
+	// to more than the limit is never held in memory in full.
+	if _, err := dst.ReadFrom(io.LimitReader(decomp, limit+1)); err != nil {
 		return err
+	}
+	if int64(dst.Len()) > limit {
+		return bufferLimitError(limit)
 	}
 	return decomp.Close()
 }
